@@ -20,7 +20,7 @@ import (
 	"verif/vk"
 )
 
-const c19Rule = "(a) all nine shipped specification files in full, every message + header + trailer compared; (b) rapid-generated specifications: 3-25 fields with types and enums, components nested up to 4 deep (optional/required at every level, components inside groups and groups inside components), optionally one dangling field or component reference (in a message, a component, a group, the header or the trailer); non-trivial = a definition containing a component nested in a component or a group; distinct = distinct (file, message) for (a), distinct generated XML for (b)"
+const c19Rule = "(a) all nine shipped specification files in full, every message + header + trailer compared; (b) rapid-generated specifications: 3-25 fields with types and enums, components nested up to 4 deep (optional/required at every level, components inside groups and groups inside components), optionally one dangling field or component reference (in a message, a component, a group, the header or the trailer), optional members written with required=N or without the attribute; non-trivial = a definition containing a component nested in a component or a group; distinct = distinct (file, message) for (a), distinct generated XML for (b)"
 
 func c19() *stats.Collector {
 	c := stats.Get("C19")
@@ -265,6 +265,9 @@ type genSpec struct {
 	nestedComp bool
 	// memberRepeated: some message declares a group member again as a top-level field after the group
 	memberRepeated bool
+	// bareOptional k > 0: every k-th optional member is written without a required attribute at all
+	// (the attribute says 'Y' for required members; a member that does not carry it is not required)
+	bareOptional int
 }
 
 var genTypes = []string{"STRING", "INT", "CHAR", "PRICE", "QTY", "BOOLEAN", "UTCTIMESTAMP", "NUMINGROUP", "LENGTH", "DATA", "MULTIPLEVALUESTRING", "CURRENCY"}
@@ -388,6 +391,7 @@ func genSpecification(t *rapid.T) *genSpec {
 	}
 	g.header = g.dedupe(g.genNodes(t, 0, -1, false, map[string]bool{}))
 	g.trailer = []*specxml.Node{{Kind: "field", Name: g.fields[0].Name, Required: true}}
+	g.bareOptional = rapid.SampledFrom([]int{0, 0, 1, 2, 3}).Draw(t, "optional-members-without-the-attribute")
 	switch rapid.IntRange(0, 7).Draw(t, "dangling") {
 	case 0:
 		g.dangling = "field"
@@ -487,16 +491,26 @@ func (g *genSpec) xml() []byte {
 		}
 		return "N"
 	}
+	optionals := 0
+	reqAttr := func(n *specxml.Node) string {
+		if !n.Required && g.bareOptional > 0 {
+			optionals++
+			if optionals%g.bareOptional == 0 {
+				return ""
+			}
+		}
+		return " required='" + yn(n.Required) + "'"
+	}
 	var members func(nodes []*specxml.Node, indent string)
 	members = func(nodes []*specxml.Node, indent string) {
 		for _, n := range nodes {
 			switch n.Kind {
 			case "group":
-				fmt.Fprintf(&b, "%s<group name='%s' required='%s'>\n", indent, n.Name, yn(n.Required))
+				fmt.Fprintf(&b, "%s<group name='%s'%s>\n", indent, n.Name, reqAttr(n))
 				members(n.Children, indent+" ")
 				fmt.Fprintf(&b, "%s</group>\n", indent)
 			default:
-				fmt.Fprintf(&b, "%s<%s name='%s' required='%s' />\n", indent, n.Kind, n.Name, yn(n.Required))
+				fmt.Fprintf(&b, "%s<%s name='%s'%s />\n", indent, n.Kind, n.Name, reqAttr(n))
 			}
 		}
 	}
@@ -560,6 +574,9 @@ func c19Property(t *rapid.T) {
 		return
 	}
 	c.Class("generated:wellformed")
+	if g.bareOptional > 0 {
+		c.Class("generated:optional-members-without-a-required-attribute")
+	}
 	if g.memberRepeated {
 		c.Class("generated:group-member-also-a-top-level-field")
 	}
